@@ -847,6 +847,14 @@ class DistributedShampoo(torch.optim.Optimizer):
                     masked_filtered_grad_list,
                     bias_correction1,
                 )
+            elif beta3 == beta1:
+                # NOTE: masked_filtered_grad_list is still the filtered gradient state itself here.
+                # The search directions derived from it are modified in-place downstream, so we
+                # have to return a copy in order to not corrupt the state.
+                masked_filtered_grad_list = tuple(
+                    filtered_grad.clone()
+                    for filtered_grad in masked_filtered_grad_list
+                )
         else:
             masked_filtered_grad_list = state_lists[MASKED_BLOCKED_GRADS]
 
